@@ -657,6 +657,17 @@ def classify(case):
     return None
 
 
+CAP = 4
+
+
+def report(ctx, stream, what, **kw):
+    """at most CAP violations per stream are written out (the rest are counted), so every failing stream gets its replays"""
+    if sum(1 for v in ctx.violations if v["stream"] == stream) < CAP:
+        ctx.violation(what, stream=stream, **kw)
+    else:
+        ctx.count(f"{stream}:further-violations")
+
+
 # ---------------------------------------------------------------------------------------------------------------------
 # streams
 # ---------------------------------------------------------------------------------------------------------------------
@@ -707,8 +718,8 @@ def stream_ctor(ctx):
             ctx.count(f"ctor:{spec['cls']}:{k}")
         if got != want:
             lost = sorted(k for k in got if got[k] != want[k])
-            ctx.violation(f"constructor option does not reach the formatter object: {', '.join(lost)}",
-                          case={"op": "ctor", "spec": spec}, expected=want, observed=got, stream="ctor-grid", kf=classify(spec))
+            report(ctx, "ctor-grid", f"constructor option does not reach the formatter object: {', '.join(lost)}",
+                   case={"op": "ctor", "spec": spec}, expected=want, observed=got, kf=classify(spec))
         lines.append("c15 ctor " + ctor_fmt_tok(spec))
         impl.append(cfg_tok(got))
         metas.append((spec, got == want))
@@ -746,7 +757,8 @@ def stream_ffn(ctx):
     for desc, el, xml in flavour_elements():
         for fs in fss:
             arg = real_formatter_arg(fs)
-            want = intended_for(fs, xml)
+            # an object is to be used as it is (whatever its constructor made of the options: that is the ctor stream's business)
+            want = observed_attrs(arg) if fs["how"] == "obj" else intended_for(fs, xml)
             try:
                 got_f = el.formatter_for_name(arg)
                 got = observed_attrs(got_f)
@@ -757,10 +769,15 @@ def stream_ffn(ctx):
             ctx.count(f"ffn:{fs['how']}:{'xml' if xml else 'html'}")
             ok = (got == want) and ident
             if not ok:
-                ctx.violation("formatter_for_name does not resolve as documented", case={"op": "ffn", "element": desc, "fmt": fs},
-                              expected=want if want is not None else "KeyError", observed=got if got is not None else "KeyError",
-                              stream="formatter_for_name", kf=classify(fs))
-            lines.append(f"c15 ffn {1 if xml else 0} {fmt_tok(fs)}")
+                report(ctx, "formatter_for_name", "formatter_for_name does not resolve as documented", case={"op": "ffn", "element": desc, "fmt": fs},
+                       expected=want if want is not None else "KeyError", observed=got if got is not None else "KeyError", kf=classify(fs))
+            if fs["how"] == "obj":
+                a = observed_attrs(arg)
+                ft = "/".join(["o", a["lang"], es_tok(a["es"]), "N" if a["vecp"] is None else ptok(a["vecp"]),
+                               ";".join(ptok(x) for x in a["cdata"]) if a["cdata"] else "E", "1" if a["eab"] else "0", ptok(a["indent"])])
+            else:
+                ft = fmt_tok(fs)
+            lines.append(f"c15 ffn {1 if xml else 0} {ft}")
             impl.append("KeyError" if got is None else cfg_tok(got))
             metas.append((desc, fs, ok))
     rep = Driver().ask(lines)
@@ -845,11 +862,8 @@ def check_render(ctx, batch, recipe, soup, path, fs, entry, stream, level=2):
     ctx.count(f"entry:{entry}")
     ctx.count(f"how:{fs['how']}")
     if not ok:
-        if sum(1 for v in ctx.violations if v["stream"] == stream) < 12:
-            ctx.violation(f"output through {entry} is not what the formatter options call for", case=case, expected=want, observed=real,
-                          stream=stream, kf=classify(case))
-        else:
-            ctx.count(f"{stream}:further-violations")
+        report(ctx, stream, f"output through {entry} is not what the formatter options call for", case=case, expected=want, observed=real,
+               kf=classify(case))
     if entry == "format_string":
         return ok
     mfs = fs if entry != "str" else {"how": "name", "name": "minimal"}
@@ -965,9 +979,8 @@ def stream_call_log(ctx, ntrees):
         ctx.case(("calllog", i) if want_log else None)
         ctx.count("calllog:calls", len(log))
         if out != want or sorted(log) != sorted(want_log) or log != want_log:
-            ctx.violation("a custom substitution function is not applied to exactly the text nodes and attribute values outside cdata-containing tags",
-                          case=case, expected={"output": want, "calls": want_log}, observed={"output": out, "calls": log},
-                          stream="call-log", kf=classify(case))
+            report(ctx, "call-log", "a custom substitution function is not applied to exactly the text nodes and attribute values outside cdata-containing tags",
+                   case=case, expected={"output": want, "calls": want_log}, observed={"output": out, "calls": log}, kf=classify(case))
         if not (is_tag(n) and n.hidden):
             pt = "N" if n.parent is None else ptok(n.parent.name)
             lines.append(f"c15 run {1 if xml else 0} {fmt_tok(mfs)} L {pt} 0 {tree_tokens(n)}")
@@ -1010,8 +1023,8 @@ def stream_attr_orders(ctx, batch, n):
         ctx.count(f"attr-orders:{k}")
         if len(distinct) != 1:
             a, b = list(outs.items())[0], [x for x in outs.items() if (x[1][0], x[1][1]) != (list(outs.values())[0][0], list(outs.values())[0][1])][0]
-            ctx.violation("output depends on the insertion order of attributes", case={"op": "attr-order", "recipe_a": a[1][2], "recipe_b": b[1][2], "fmt": fs},
-                          expected=a[1][0], observed=b[1][0], stream="attr-orders", kf=None)
+            report(ctx, "attr-orders", "output depends on the insertion order of attributes",
+                   case={"op": "attr-order", "recipe_a": a[1][2], "recipe_b": b[1][2], "fmt": fs}, expected=a[1][0], observed=b[1][0], kf=None)
         # one order through the full three-way check
         recipe = list(outs.values())[r.randrange(len(outs))][2]
         check_render(ctx, batch, recipe, build_tree(recipe), (), fs, "decode", "attr-orders")
@@ -1112,9 +1125,8 @@ def stream_determinism(ctx):
             ctx.case(("hashseed", s, di))
             if a != b:
                 j = [i for i, (x, y) in enumerate(zip(a, b)) if x != y][0]
-                ctx.violation("output depends on PYTHONHASHSEED", case={"op": "hashseed", "markup": docs[di], "seeds": [seeds[0], s], "rendering": j},
-                              expected=a[j], observed=b[j], stream="hash-seed", kf=None)
-                break
+                report(ctx, "hash-seed", "output depends on PYTHONHASHSEED",
+                       case={"op": "hashseed", "markup": docs[di], "seeds": [seeds[0], s], "rendering": j}, expected=a[j], observed=b[j], kf=None)
     ctx.count("hashseed:documents", len(docs))
     ctx.count("hashseed:seeds", len(seeds))
     if ctx.extra["distinct_regex_orders_seen"] < 2:
@@ -1155,10 +1167,10 @@ def run(ctx: Ctx):
     stream_ctor(ctx)
     stream_ffn(ctx)
     stream_option_grid(ctx, batch)
-    stream_render(ctx, batch, ctx.n(260, 2600))
-    stream_attr_orders(ctx, batch, ctx.n(60, 400))
+    stream_render(ctx, batch, ctx.n(600, 5000))
+    stream_attr_orders(ctx, batch, ctx.n(120, 800))
     batch.flush()
-    stream_call_log(ctx, ctx.n(300, 3000))
+    stream_call_log(ctx, ctx.n(800, 6000))
     stream_subst(ctx)
     stream_determinism(ctx)
     if ctx.lean is not None and not ctx.lean.ok:
@@ -1184,9 +1196,10 @@ def replay(path):
     if op == "ffn":
         els = {d: (el, xml) for d, el, xml in flavour_elements()}
         el, xml = els[c["element"]]
-        want = intended_for(c["fmt"], xml)
+        arg = real_formatter_arg(c["fmt"])
+        want = observed_attrs(arg) if c["fmt"]["how"] == "obj" else intended_for(c["fmt"], xml)
         try:
-            got = observed_attrs(el.formatter_for_name(real_formatter_arg(c["fmt"])))
+            got = observed_attrs(el.formatter_for_name(arg))
         except KeyError:
             got = None
         print("element:", c["element"], "formatter argument:", c["fmt"])
